@@ -110,7 +110,9 @@ def replay(spec):
                 cs = LineageVolumeCellState(v0=v0, t0=t0, state=np.array([1.0, 0.0, 3.0]), volume=vol, time=tt, divided=2, dead=-1)
                 cs.py_set_time(tt)          # as a simulation leaves it: current time and volume set through the setters
                 cs.py_set_volume(vol)
-                get = lambda o: (o.py_get_time(), o.py_get_volume(), o.py_get_initial_time(), o.py_get_initial_volume(), list(o.py_get_state()))
+                # the divided / dead flags (here: divided by rule 2, not dead) have no getters: they are read from the state tuple
+                get = lambda o: (o.py_get_time(), o.py_get_volume(), o.py_get_initial_time(), o.py_get_initial_volume(), list(o.py_get_state()),
+                                 tuple(x for x in o.__getstate__() if isinstance(x, (int, np.integer)) and not isinstance(x, bool)))
             else:
                 cs = VolumeCellState(time=tt, state=np.array([1.0, 0.0, 3.0]), volume=vol)
                 get = lambda o: (o.py_get_time(), o.py_get_volume(), list(o.py_get_state()))
